@@ -425,6 +425,44 @@ def replay_rotated(case):
             ax, ax0 = out["hexagonal_axis"][0], ref["hexagonal_axis"][0]
             if abs(abs(ax @ (Q @ ax0)) - 1) > 1e-6:
                 problems.append(f"{nm}: hexagonal axis does not co-rotate")
+    # arbitrary positive-definite orthorhombic tensors: the principal values of the two contractions d_ij = C_ijkk and
+    # v_ij = C_ikjk may sort in any of the 6 relative orders (identity, three swaps, two 3-cycles); two tensors per class,
+    # each in its own frame and in two rotated frames
+    rng = np.random.default_rng(31)
+    classes = {}
+    while len(classes) < 6 or min(len(v) for v in classes.values()) < 2:
+        d_, o_, s_ = rng.uniform(150, 300, 3), rng.uniform(20, 90, 3), rng.uniform(30, 110, 3)
+        C0 = np.zeros((6, 6))
+        C0[:3, :3] = [[d_[0], o_[0], o_[1]], [o_[0], d_[1], o_[2]], [o_[1], o_[2], d_[2]]]
+        C0[3:, 3:] = np.diag(s_)
+        dil = C0[:3, :3].sum(axis=1)
+        dev = np.array([d_[0] + s_[2] + s_[1], s_[2] + d_[1] + s_[0], s_[1] + s_[0] + d_[2]])
+        if np.linalg.eigvalsh(C0).min() < 5 or np.diff(np.sort(dil)).min() < 8 or np.diff(np.sort(dev)).min() < 8:
+            continue
+        rel = tuple(int(x) for x in np.argsort(np.argsort(dil))[np.argsort(dev)])
+        if len(classes.setdefault(rel, [])) < 2:
+            classes[rel].append(C0)
+    for rel, Cs in sorted(classes.items()):
+        for C0 in Cs:
+            T0 = tensors.voigt_to_elastic_tensor(C0)
+            ref = pydrex.elasticity_components(np.array([C0]))
+            for Q in [np.eye(3)] + list(Rotation.random(2, random_state=int(C0[0, 0])).as_matrix()):
+                C = tensors.elastic_tensor_to_voigt(tensors.rotate(T0, Q))
+                out = pydrex.elasticity_components(np.array([C]))
+                tag = f"orthorhombic tensor (relative order of the contraction eigenvalues {rel})"
+                pct = {k: float(out[k][0]) for k in ("percent_hexagonal", "percent_tetragonal", "percent_orthorhombic", "percent_monoclinic", "percent_triclinic", "percent_anisotropy")}
+                if not all(np.isfinite(v) and -1e-9 <= v <= 100 + 1e-9 for v in pct.values()):
+                    problems.append(f"{tag}: percentages outside [0, 100]")
+                    continue
+                if pct["percent_monoclinic"] > 1e-6 or pct["percent_triclinic"] > 1e-6:
+                    problems.append(f"{tag}: monoclinic / triclinic parts do not vanish")
+                if not np.isclose(sum(v ** 2 for k, v in pct.items() if k != "percent_anisotropy"), pct["percent_anisotropy"] ** 2, rtol=1e-6):
+                    problems.append(f"{tag}: squared class percentages do not add up to the squared anisotropy")
+                if any(not np.isclose(out[k][0], ref[k][0], rtol=1e-6, atol=1e-8) for k in pct):
+                    problems.append(f"{tag}: percentages change in a rotated frame")
+                ax, ax0 = out["hexagonal_axis"][0], ref["hexagonal_axis"][0]
+                if abs(np.linalg.norm(ax) - 1) > 1e-9 or abs(abs(ax @ (Q @ ax0)) - 1) > 1e-6:
+                    problems.append(f"{tag}: hexagonal axis is not the unit image of the axis found in the unrotated frame")
     # a series of matrices in one call must give the same result as decomposing each matrix alone
     rots = Rotation.random(3, random_state=9).as_matrix()
     series = [tensors.elastic_tensor_to_voigt(tensors.rotate(tensors.voigt_to_elastic_tensor(getattr(st, nm)), Q)) for nm, Q in
